@@ -11,13 +11,10 @@ Lemma poll_unfold s c q ct topics now upd :
   let s1 := pre_poll s q now upd in
   match ct with
   | Normal =>
-      match take_first (in_queue q) (simple s1) with
-      | None => (s1, PNone)
-      | Some (m, rest) =>
-          let s2 := mkS rest (delayed s1) (dead s1) (processing s1) (gone s1) (stamp s1) (clk s1) in
-          if msg_overdue m now then (mkS rest (delayed s1) (dead s1 ++ [m]) (processing s1) (gone s1) (stamp s1) (clk s1), PNone)
-          else if negb (topic_ok topics m) then (mkS (rest ++ [m]) (delayed s1) (dead s1) (processing s1) (gone s1) (stamp s1) (clk s1), PNone)
-          else (set_processing s2 (processing s2 ++ [mkHeld m ONormal c]), PDelivered m)
+      let '(d, f, k) := scan q topics now (simple s1) in
+      match f with
+      | None => (mkS k (delayed s1) (dead s1 ++ d) (processing s1) (gone s1) (stamp s1) (clk s1), PNone)
+      | Some m => (mkS k (delayed s1) (dead s1 ++ d) (processing s1 ++ [mkHeld m ONormal c]) (gone s1) (stamp s1) (clk s1), PDelivered m)
       end
   | DelayedC =>
       match min_key q (delayed s1) with
@@ -37,6 +34,70 @@ Lemma poll_unfold s c q ct topics now upd :
       end
   end.
 Proof. reflexivity. Qed.
+
+(* ---- the full turn of the waiting list ---- *)
+(* what it finds is the FIRST hit of the list *)
+Lemma scan_find q topics now l : snd (fst (scan q topics now l)) = find (hit q topics now) l.
+Proof.
+  induction l as [|m r IH]; cbn [scan find]; [reflexivity|]. unfold hit at 1.
+  destruct (scan q topics now r) as [[d f] k]. cbn [fst snd] in IH.
+  destruct (in_queue q m); [destruct (msg_overdue m now); [|destruct (topic_ok topics m)]|]; cbn [andb negb fst snd]; auto.
+Qed.
+
+Lemma scan_found q topics now l d m k :
+  scan q topics now l = (d, Some m, k) -> hit q topics now m = true /\ In m l.
+Proof.
+  intros H. pose proof (scan_find q topics now l) as Hf. rewrite H in Hf. cbn [fst snd] in Hf. symmetry in Hf.
+  apply find_some in Hf. tauto.
+Qed.
+
+Lemma hit_parts q topics now m : hit q topics now m = true -> in_queue q m = true /\ msg_overdue m now = false /\ topic_ok topics m = true.
+Proof. unfold hit. destruct (in_queue q m), (msg_overdue m now), (topic_ok topics m); cbn; intros; try discriminate; auto. Qed.
+
+(* what it dead-letters: expired messages of its queue, nothing else *)
+Lemma scan_dead q topics now l : Forall (fun m => in_queue q m = true /\ msg_overdue m now = true) (fst (fst (scan q topics now l))).
+Proof.
+  induction l as [|m r IH]; cbn [scan]; [constructor|].
+  destruct (scan q topics now r) as [[d f] k]. cbn [fst] in IH.
+  destruct (in_queue q m) eqn:Eq; [destruct (msg_overdue m now) eqn:Eo; [|destruct (topic_ok topics m)]|]; cbn [fst]; auto.
+Qed.
+
+(* messages it is not concerned with (other queues; live messages of topics it does not serve) stay, the same records in the
+   same order: for any class P of messages none of which is expired-in-q or a hit *)
+Lemma scan_stable (P : msg -> bool) q topics now l :
+  (forall m, P m = true -> in_queue q m = true -> msg_overdue m now = false /\ topic_ok topics m = false) ->
+  filter P (snd (scan q topics now l)) = filter P l.
+Proof.
+  intros HP. induction l as [|m r IH]; cbn [scan]; [reflexivity|].
+  destruct (scan q topics now r) as [[d f] k]. cbn [snd] in IH.
+  destruct (in_queue q m) eqn:Eq; [destruct (msg_overdue m now) eqn:Eo; [|destruct (topic_ok topics m) eqn:Et]|];
+    cbn [snd filter]; rewrite ?IH; try reflexivity.
+  - destruct (P m) eqn:Ep; [|reflexivity]. destruct (HP m Ep Eq). congruence.
+  - destruct (P m) eqn:Ep; [|reflexivity]. destruct (HP m Ep Eq). congruence.
+Qed.
+
+(* the remaining list is a sub-list of the old one *)
+Lemma scan_rest_subset q topics now l x : In x (snd (scan q topics now l)) -> In x l.
+Proof.
+  revert x. induction l as [|m r IH]; cbn [scan]; intros x; [auto|].
+  destruct (scan q topics now r) as [[d f] k]. cbn [snd] in IH.
+  destruct (in_queue q m); [destruct (msg_overdue m now); [|destruct (topic_ok topics m)]|]; cbn [snd]; intros Hin.
+  - right. auto.
+  - right. exact Hin.
+  - destruct Hin as [->|Hin]; [left; reflexivity | right; auto].
+  - destruct Hin as [->|Hin]; [left; reflexivity | right; auto].
+Qed.
+
+Lemma scan_Forall (Q : msg -> Prop) q topics now l d f k :
+  scan q topics now l = (d, f, k) -> Forall Q l ->
+  Forall Q d /\ Forall Q k /\ match f with Some m => Q m | None => True end.
+Proof.
+  revert d f k. induction l as [|m r IH]; cbn [scan]; intros d f k H HF.
+  - inversion H; subst. auto.
+  - inversion HF as [|? ? Hm Hr]; subst. destruct (scan q topics now r) as [[d0 f0] k0].
+    destruct (IH _ _ _ eq_refl Hr) as (A & B & C).
+    destruct (in_queue q m); [destruct (msg_overdue m now); [|destruct (topic_ok topics m)]|]; inversion H; subst; auto.
+Qed.
 
 Lemma fold_append_processing l : forall x, processing (fold_left append_simple l x) = processing x.
 Proof. induction l as [|m l IH]; intros x; simpl; [reflexivity|]. rewrite IH. reflexivity. Qed.
@@ -60,31 +121,52 @@ Qed.
 Theorem no_expired_delivery s c q topics now upd s' m :
   poll s c q Normal topics now upd = (s', PDelivered m) -> msg_overdue m now = false.
 Proof.
-  rewrite poll_unfold. cbv zeta. destruct (take_first (in_queue q) (simple (pre_poll s q now upd))) as [[x rest]|]; [|discriminate].
-  destruct (msg_overdue x now) eqn:E; [discriminate|]. destruct (negb (topic_ok topics x)); [discriminate|].
-  intros H; inversion H; subst. exact E.
+  rewrite poll_unfold. cbv zeta. destruct (scan q topics now (simple (pre_poll s q now upd))) as [[d f] k] eqn:E.
+  destruct f as [x|]; [|discriminate]. intros H; inversion H; subst.
+  destruct (scan_found _ _ _ _ _ _ _ E) as [Hh _]. apply hit_parts in Hh. tauto.
 Qed.
 
-(* it ends in the dead-letter list instead *)
+(* the first waiting message of the queue, when it has expired, ends in the dead-letter list instead (and so does every
+   expired message the turn passes before it finds something to deliver) *)
+Lemma scan_head_expired q topics now l m rest :
+  take_first (in_queue q) l = Some (m, rest) -> msg_overdue m now = true -> In m (fst (fst (scan q topics now l))).
+Proof.
+  revert m rest. induction l as [|x r IH]; cbn [take_first scan]; intros m rest H Ho; [discriminate|].
+  destruct (scan q topics now r) as [[d f] k] eqn:E. cbn [fst] in IH.
+  destruct (in_queue q x) eqn:Eq.
+  - inversion H; subst. rewrite Ho. cbn [fst]. left. reflexivity.
+  - destruct (take_first (in_queue q) r) as [[y r']|]; [|discriminate]. inversion H; subst. cbn [fst]. eapply IH; eauto.
+Qed.
+
 Theorem expired_to_dead s c q topics now upd m rest :
   take_first (in_queue q) (simple (pre_poll s q now upd)) = Some (m, rest) -> msg_overdue m now = true ->
-  let s1 := pre_poll s q now upd in
-  poll s c q Normal topics now upd = (mkS rest (delayed s1) (dead s ++ [m]) (processing s1) (gone s1) (stamp s1) (clk s1), PNone).
-Proof. intros E Ho. rewrite poll_unfold. cbv zeta. rewrite E, Ho. cbv beta iota. rewrite pre_poll_dead. reflexivity. Qed.
+  let s' := fst (poll s c q Normal topics now upd) in
+  In m (dead s') /\ ~ In m (map hd_msg (skipn (length (processing s)) (processing s'))).
+Proof.
+  intros E Ho. rewrite poll_unfold. cbv zeta.
+  pose proof (scan_head_expired q topics now _ _ _ E Ho) as Hin.
+  pose proof (pre_poll_processing s q now upd) as Hp.
+  destruct (scan q topics now (simple (pre_poll s q now upd))) as [[d f] k] eqn:Es. cbn [fst] in Hin.
+  destruct f as [x|]; cbn [fst dead processing]; (split; [apply in_or_app; right; exact Hin|]); rewrite Hp.
+  - rewrite skipn_app, skipn_all, Nat.sub_diag. cbn. intros [Hx|[]]. subst x.
+    destruct (scan_found _ _ _ _ _ _ _ Es) as [Hh _]. apply hit_parts in Hh. destruct Hh as (_ & Hh & _). congruence.
+  - rewrite skipn_all. cbn. auto.
+Qed.
 
-(* a poll never removes a message from the dead list except by delivering it to a DEAD-category consumer *)
+(* a poll never removes a message from the dead list except by delivering it to a DEAD-category consumer, and what a
+   normal poll adds to it are expired messages only *)
 Theorem dead_only_grows_unless_dead_consumer s c q ct topics now upd :
   ct <> DeadC ->
   let s' := fst (poll s c q ct topics now upd) in
-  dead s' = dead s \/ (exists m, dead s' = dead s ++ [m] /\ msg_overdue m now = true /\ ct = Normal).
+  exists d, dead s' = dead s ++ d /\ Forall (fun m => msg_overdue m now = true) d /\ (ct <> Normal -> d = []).
 Proof.
   intros Hne. rewrite poll_unfold. cbv zeta. pose proof (pre_poll_dead s q now upd) as Hd. destruct ct; [| |contradiction].
-  - destruct (take_first (in_queue q) (simple (pre_poll s q now upd))) as [[x rest]|].
-    + destruct (msg_overdue x now) eqn:E.
-      * right. exists x. cbn [fst dead]. rewrite Hd. auto.
-      * left. destruct (negb (topic_ok topics x)); cbn [fst dead set_processing]; rewrite Hd; auto.
-    + left. cbn [fst]. exact Hd.
-  - left. destruct (min_key q _); [destruct (d_pop q _ _) as [[x d']|]|]; cbn [fst dead]; exact Hd.
+  - pose proof (scan_dead q topics now (simple (pre_poll s q now upd))) as Hsd.
+    destruct (scan q topics now (simple (pre_poll s q now upd))) as [[d f] k]. cbn [fst] in Hsd.
+    exists d. destruct f; cbn [fst dead]; rewrite Hd; (split; [reflexivity|]);
+      (split; [eapply Forall_impl; [|exact Hsd]; cbv beta; tauto | congruence]).
+  - exists []. rewrite app_nil_r.
+    destruct (min_key q _); [destruct (d_pop q _ _) as [[x d']|]|]; cbn [fst dead]; auto.
 Qed.
 
 (* dead-lettered messages stay retrievable: a DEAD-category poll returns the first one of the queue *)
@@ -98,30 +180,46 @@ Proof. intros E. rewrite poll_unfold. cbv zeta. rewrite pre_poll_dead, E. cbv be
 Theorem delivered_matches s c q topics now upd s' m :
   poll s c q Normal topics now upd = (s', PDelivered m) -> in_queue q m = true /\ topic_ok topics m = true.
 Proof.
-  rewrite poll_unfold. cbv zeta. destruct (take_first (in_queue q) (simple (pre_poll s q now upd))) as [[x rest]|] eqn:E; [|discriminate].
-  destruct (msg_overdue x now); [discriminate|]. destruct (topic_ok topics x) eqn:Et; [|discriminate].
-  intros H; inversion H; subst. split; [exact (take_first_sat _ _ _ _ E) | exact Et].
+  rewrite poll_unfold. cbv zeta. destruct (scan q topics now (simple (pre_poll s q now upd))) as [[d f] k] eqn:E.
+  destruct f as [x|]; [|discriminate]. intros H; inversion H; subst.
+  destruct (scan_found _ _ _ _ _ _ _ E) as [Hh _]. apply hit_parts in Hh. tauto.
 Qed.
 
-(* a foreign, non-expired message is only rotated: same record (payload, parameters), still waiting, nothing dead-lettered *)
-Theorem foreign_untouched s c q topics now upd m rest :
-  take_first (in_queue q) (simple (pre_poll s q now upd)) = Some (m, rest) ->
-  msg_overdue m now = false -> topic_ok topics m = false ->
-  let s1 := pre_poll s q now upd in
-  poll s c q Normal topics now upd = (mkS (rest ++ [m]) (delayed s1) (dead s) (processing s) (gone s1) (stamp s1) (clk s1), PNone).
+(* live messages of topics the consumer does not serve are untouched by its poll: the same records (payload, parameters),
+   in the same order, still waiting - whatever else the poll did *)
+Definition foreign (q : Z) (topics : list Z) (now : time) (m : msg) : bool :=
+  in_queue q m && negb (msg_overdue m now) && negb (topic_ok topics m).
+
+Theorem foreign_untouched s c q topics now upd :
+  filter (foreign q topics now) (simple (fst (poll s c q Normal topics now upd))) =
+  filter (foreign q topics now) (simple (pre_poll s q now upd)).
 Proof.
-  intros E Ho Ht. rewrite poll_unfold. cbv zeta. rewrite E, Ho, Ht. cbn [negb]. cbv beta iota. rewrite pre_poll_dead, pre_poll_processing. reflexivity.
+  rewrite poll_unfold. cbv zeta.
+  pose proof (scan_stable (foreign q topics now) q topics now (simple (pre_poll s q now upd))) as H.
+  destruct (scan q topics now (simple (pre_poll s q now upd))) as [[d f] k]. cbn [snd] in H.
+  destruct f as [x|]; cbn [fst simple]; apply H; unfold foreign; intros m Hm _;
+    destruct (in_queue q m), (msg_overdue m now), (topic_ok topics m); cbn in Hm; try discriminate; auto.
+Qed.
+
+(* ... and they do not block it (the clause the lock-step finding violated before the fix): whenever a live message of its
+   queue and topics is waiting ANYWHERE in the list, the poll delivers - the first such message *)
+Theorem foreign_never_blocks s c q topics now upd :
+  snd (poll s c q Normal topics now upd) =
+  match find (hit q topics now) (simple (pre_poll s q now upd)) with Some m => PDelivered m | None => PNone end.
+Proof.
+  rewrite poll_unfold. cbv zeta. pose proof (scan_find q topics now (simple (pre_poll s q now upd))) as H.
+  destruct (scan q topics now (simple (pre_poll s q now upd))) as [[d f] k]. cbn [fst snd] in H. rewrite <- H.
+  destruct f; reflexivity.
 Qed.
 
 (* messages of other queues are not even looked at *)
-Lemma take_first_other_queue q l m rest :
-  take_first (in_queue q) l = Some (m, rest) -> forall q', q' <> q -> filter (in_queue q') rest = filter (in_queue q') l.
+Theorem other_queues_untouched s c q topics now upd q' : q' <> q ->
+  filter (in_queue q') (simple (fst (poll s c q Normal topics now upd))) = filter (in_queue q') (simple (pre_poll s q now upd)).
 Proof.
-  revert m rest. induction l as [|x l IH]; simpl; intros m rest H q' Hne; [discriminate|].
-  destruct (in_queue q x) eqn:E.
-  - inversion H; subst. unfold in_queue in *. destruct (m_queue m =? q') eqn:E2; [lia|reflexivity].
-  - destruct (take_first (in_queue q) l) as [[y r']|]; [|discriminate]. inversion H; subst. simpl.
-    rewrite (IH _ _ eq_refl q' Hne). reflexivity.
+  intros Hne. rewrite poll_unfold. cbv zeta.
+  pose proof (scan_stable (in_queue q') q topics now (simple (pre_poll s q now upd))) as H.
+  destruct (scan q topics now (simple (pre_poll s q now upd))) as [[d f] k]. cbn [snd] in H.
+  destruct f as [x|]; cbn [fst simple]; apply H; unfold in_queue; intros m H1 H2; lia.
 Qed.
 
 (* ================= C14 ================= *)
@@ -131,9 +229,8 @@ Theorem delivery_marks_holder s c q ct topics now upd s' m :
   exists o, processing s' = processing s ++ [mkHeld m o c].
 Proof.
   rewrite poll_unfold. cbv zeta. pose proof (pre_poll_processing s q now upd) as Hp. destruct ct.
-  - destruct (take_first (in_queue q) (simple (pre_poll s q now upd))) as [[x rest]|]; [|discriminate].
-    destruct (msg_overdue x now); [discriminate|]. destruct (negb (topic_ok topics x)); [discriminate|].
-    intros H. injection H as Hs Hm. subst s' x. exists ONormal. unfold set_processing, pre_poll in *. cbn [processing] in *. rewrite Hp. reflexivity.
+  - destruct (scan q topics now (simple (pre_poll s q now upd))) as [[d f] k]. destruct f as [x|]; [|discriminate].
+    intros H. injection H as Hs Hm. subst s' x. exists ONormal. unfold pre_poll in Hp. cbn [processing] in *. rewrite Hp. reflexivity.
   - destruct (min_key q _) as [k|]; [|discriminate]. destruct (d_pop q k _) as [[x d']|]; [|discriminate].
     intros H. injection H as Hs Hm. subst s' x. exists (ODelayed k). unfold pre_poll in *. cbn [processing] in *. rewrite Hp. reflexivity.
   - destruct (take_first (in_queue q) (dead _)) as [[x rest]|]; [|discriminate].
